@@ -350,7 +350,7 @@ class WorldBase:
              'waiting_on': self.timeout_on}
         self.outcomes.append(o)
         self._judge(o)
-        if kind == 'ret':
+        if kind == 'ret' and self.cur_op in ('Sr', 'St'):
             self.returned += 1
 
     def _judge(self, o):
